@@ -505,6 +505,44 @@ func init() {
 					leaves := !(exit == b) && !reachesAvoiding(exit, b, cont)
 					if loops && leaves {
 						ok = true
+						// nothing else decides the skip: every other test that can leave this loop is the end of the chain
+						// (the neighbour pointer is nil, the index reached the length) — not a property of the neighbour
+						for _, l := range prog.Loops(fn) {
+							if !l.Body[b] {
+								continue
+							}
+							for lb := range l.Body {
+								liff := prog.IfOf(lb)
+								if liff == nil || lb == b || (l.Body[lb.Succs[0]] && l.Body[lb.Succs[1]]) {
+									continue
+								}
+								endOfChain := false
+								if bo, isBO := liff.Cond.(*ssa.BinOp); isBO {
+									switch bo.Op {
+									case token.EQL, token.NEQ:
+										// nil test of a value of the node type the loop walks (not of a ticket or flag of the neighbour)
+										for _, pair := range [][2]ssa.Value{{bo.X, bo.Y}, {bo.Y, bo.X}} {
+											if prog.IsNilConst(pair[1]) {
+												if f := prog.LoadedField(pair[0]); f != nil && f.Name() == "next" {
+													endOfChain = true
+												}
+											}
+										}
+									case token.LSS, token.GEQ, token.GTR, token.LEQ:
+										// index against len(...)
+										for _, side := range []ssa.Value{bo.X, bo.Y} {
+											if c, isC := prog.Strip(side).(*ssa.Call); isC {
+												if bi, isB := c.Call.Value.(*ssa.Builtin); isB && bi.Name() == "len" {
+													endOfChain = true
+												}
+											}
+										}
+									}
+								}
+								x.check(endOfChain, fmt.Sprintf("func=%s other-loop-exit@%s only-the-end-of-the-chain", prog.FnName(fn), condText(liff.Cond)), x.P.InstrPos(liff),
+									"the only other way out of the skip loop is the end of the chain", "the skip loop is also left on a test of something else than the neighbour's ticket (its tombstone, a flag): whether a concurrent sibling is skipped then depends on what this replica has already applied or purged, and replicas order concurrent inserts differently")
+							}
+						}
 					}
 				}
 				_ = found
@@ -522,6 +560,47 @@ func init() {
 					"the skip loop does not continue exactly while neighbour.After(incoming): concurrent inserts at one position are ordered differently on different replicas")
 			}
 		}})
+}
+
+// condText names a condition for an obligation key without positions: the operator and the field names involved.
+func condText(v ssa.Value) string {
+	var parts []string
+	seen := map[ssa.Value]bool{}
+	var walk func(w ssa.Value, d int)
+	walk = func(w ssa.Value, d int) {
+		if w == nil || seen[w] || d > 6 {
+			return
+		}
+		seen[w] = true
+		if f := prog.LoadedField(w); f != nil {
+			parts = append(parts, f.Name())
+		}
+		switch t := w.(type) {
+		case *ssa.BinOp:
+			parts = append(parts, t.Op.String())
+			walk(t.X, d+1)
+			walk(t.Y, d+1)
+		case *ssa.UnOp:
+			walk(t.X, d+1)
+		case *ssa.FieldAddr:
+			walk(t.X, d+1)
+		case *ssa.Call:
+			if o := prog.CallObj(t); o != nil {
+				parts = append(parts, o.Name()+"()")
+			} else if bi, ok := t.Call.Value.(*ssa.Builtin); ok {
+				parts = append(parts, bi.Name()+"()")
+			}
+			for _, a := range t.Call.Args {
+				walk(a, d+1)
+			}
+		case *ssa.Const:
+			if t.IsNil() {
+				parts = append(parts, "nil")
+			}
+		}
+	}
+	walk(v, 0)
+	return strings.Join(parts, ".")
 }
 
 // reachesAvoiding: from `from`, is `target` reachable without passing `avoid`?
